@@ -183,7 +183,7 @@ type runResult struct {
 	Err       string     `json:"err,omitempty"`
 }
 
-var traceEvents = map[string]bool{"Reset": true, "Submit": true, "IntroSegment": true, "Return": true, "Callback": true, "PersistCommitted": true}
+var traceEvents = map[string]bool{"Reset": true, "Submit": true, "IntroSegment": true, "Return": true, "Callback": true, "PersistCommitted": true, "MemMergeEquiv": true}
 
 func readEvents(path string) ([]sx.Event, error) {
 	f, err := os.Open(path)
@@ -274,6 +274,10 @@ func execute(c *core.Ctx, rs runSpec) (*runResult, error) {
 			res.Hits = h
 		}
 		if !traceEvents[name] {
+			continue
+		}
+		if name == "MemMergeEquiv" {
+			res.Records = append(res.Records, sx.CrashRecords([]sx.Event{ev})...)
 			continue
 		}
 		r := map[string]any{"ev": name}
